@@ -28,7 +28,63 @@ macro_rules! dump_multimap_table {
   }};
 }
 
+/// Parsed content of one `OUTPOINT_TO_UTXO_ENTRY` row.
+pub struct VerifUtxo {
+  pub value: u64,
+  pub ranges: Option<Vec<(u64, u64)>>,
+  pub script: Option<Vec<u8>>,
+  pub inscriptions: Option<Vec<(u32, u64)>>,
+}
+
 impl Index {
+  /// The stored entry of `outpoint`, parsed according to the index flags.
+  pub fn verif_utxo(&self, outpoint: OutPoint) -> Result<Option<VerifUtxo>> {
+    let rtx = self.database.begin_read()?;
+    let table = rtx.open_table(OUTPOINT_TO_UTXO_ENTRY)?;
+    let Some(entry) = table.get(&outpoint.store())? else {
+      return Ok(None);
+    };
+    let parsed = entry.value().parse(self);
+    Ok(Some(VerifUtxo {
+      value: parsed.total_value(),
+      ranges: self.index_sats.then(|| {
+        parsed
+          .sat_ranges()
+          .chunks_exact(11)
+          .map(|chunk| SatRange::load(chunk.try_into().unwrap()))
+          .collect()
+      }),
+      script: self
+        .index_addresses
+        .then(|| parsed.script_pubkey().to_vec()),
+      inscriptions: self
+        .index_inscriptions
+        .then(|| parsed.parse_inscriptions()),
+    }))
+  }
+
+  /// Every row of `SEQUENCE_NUMBER_TO_INSCRIPTION_ENTRY` as (key, entry).
+  pub fn verif_inscription_entries(&self) -> Result<Vec<(u32, InscriptionEntry)>> {
+    let rtx = self.database.begin_read()?;
+    let mut entries = Vec::new();
+    for row in rtx.open_table(SEQUENCE_NUMBER_TO_INSCRIPTION_ENTRY)?.iter()? {
+      let (key, value) = row?;
+      entries.push((key.value(), InscriptionEntry::load(value.value())));
+    }
+    Ok(entries)
+  }
+
+  /// Every outpoint with a stored entry.
+  pub fn verif_utxo_outpoints(&self) -> Result<Vec<OutPoint>> {
+    let rtx = self.database.begin_read()?;
+    let mut outpoints = Vec::new();
+    for row in rtx.open_table(OUTPOINT_TO_UTXO_ENTRY)?.iter()? {
+      let (key, _value) = row?;
+      outpoints.push(OutPoint::load(*key.value()));
+    }
+    Ok(outpoints)
+  }
+
   /// Every row of every table, keys and values rendered with `Debug`.
   pub fn verif_dump(&self) -> Result<BTreeMap<String, Vec<(String, String)>>> {
     let rtx = self.database.begin_read()?;
